@@ -26,15 +26,16 @@ Print Assumptions C05_reported_pool_prefix_valid.
 (** The block MineBlock assembles (v1 prefix, its own arbitrary-data transaction, v2 prefix,
     up to the weight limit) has a valid body — under law L3 about go.sia.tech/core (a
     sequentially valid, in-weight list makes a valid block body), which the harness
-    re-checks on every run. *)
+    re-checks on every run.  [mw] is the block weight limit, [capw] a tenth of the pool's
+    capacity (ten blocks by default, so [capw = mw] there; any capacity will do). *)
 Theorem C05_mined_block_accepted :
   ∀ (body_ok : ledger → list atx → bool) (mw : N),
     (∀ L ts, valid_seq L ts → total_weight ts ≤ mw → body_ok L ts = true) →
-    ∀ U L0 ops arb v2a, ids_inj U → Forall (op_in U) ops →
-      let s := nrun mw L0 ops in
+    ∀ capw U L0 ops arb v2a, ids_inj U → Forall (op_in U) ops →
+      let s := nrun capw L0 ops in
       a_ins arb = [] → a_outs arb = [] → (v2a = true → static_ok (l_h s.1) arb = true) →
       a_weight arb ≤ mw →
-      body_ok s.1 (mine_block mw v2a arb (pool_transactions s.1 mw s.2) (v2_pool_transactions s.1 mw s.2)) = true.
+      body_ok s.1 (mine_block mw v2a arb (pool_transactions s.1 capw s.2) (v2_pool_transactions s.1 capw s.2)) = true.
 Proof. exact mined_block_accepted. Qed.
 Print Assumptions C05_mined_block_accepted.
 
